@@ -107,11 +107,19 @@ func runHistory(t *testing.T, seed int64, blocks int) (string, map[string]int, s
 	r := rand.New(rand.NewSource(seed))
 	w := newWorld(t, r, 2+r.Intn(2), 4+r.Intn(3))
 	lastWorld = w
+	if seed%3 == 2 {
+		w.focus = "dispute"
+	}
 	stats := map[string]int{}
 	var steps []string
 	init := w.snap()
 	for b := 0; b < blocks && w.halted == ""; b++ {
-		res := w.beginBlock(blockGap(r))
+		gap := blockGap(r)
+		if w.focus == "dispute" && r.Intn(2) == 0 {
+			// the periods of the dispute module: 1 d prevote, 2 d vote, 3 d round / dispute end
+			gap = pick(r, 12*time.Hour, 24*time.Hour, 24*time.Hour+time.Nanosecond, 36*time.Hour, 48*time.Hour, 48*time.Hour+time.Second, 72*time.Hour, 72*time.Hour+time.Second)
+		}
+		res := w.beginBlock(gap)
 		steps = append(steps, coqStep(res, w.snap(), nil))
 		stats[fmt.Sprintf("%s/%d", res.name, res.result)]++
 		if w.halted != "" {
